@@ -12,6 +12,7 @@ RULE = ("seeded random scripts of 8-60 ops over next_float/next_int(lo,hi)/next_
         "restore_state, seeds from {0,+-1,-2^63,2^64+1,10^50,random}, integer ranges single-value/negative/"
         "straddling/huge (2^53-1..2^100); non-trivial = script has >=1 restore or reset after draws and >=2 draw "
         "kinds; distinct = canonical script hash")
+RULE += '; a fifth of the cases copy the stream (deepcopy, pickle, copy.copy), half of them after a set_seed'
 ASSUMPTIONS = ["integer spans are below 2^1024 (convertible to float)",
                "extreme uniforms (1-2^-53) cannot be forced through the public stream API and are not injected here"]
 
@@ -174,24 +175,36 @@ def _containers(case, ctx):
 
 
 def _copies(case, ctx):
-    """a deep copy of a stream is a stream of its own: it continues like the original would, and neither disturbs the other"""
-    import copy
+    """a deep copy (or a pickle round trip) of a stream is a stream of its own: it continues like the original would, and neither
+    disturbs the other; any copy - copy.copy too - reports the seeds of the original and its reset() replays the current seed"""
+    import copy, pickle
     from pydsol.core.streams import MersenneTwister
-    m, ref = MersenneTwister(case["seed"]), MersenneTwister(case["seed"])
-    for _ in range(1 + case["bseed"] % 4):
-        m.next_float(); ref.next_float()
-    c = copy.deepcopy(m)
-    ctx.count("deep_copies")
-    want = [ref.next_float() for _ in range(6)]
-    got_c = [c.next_float() for _ in range(6)]
-    got_m = [m.next_float() for _ in range(6)]
-    if got_c != want or got_m != want:
-        ctx.viol("streams-share-state:deep-copy", {"seed": case["seed"], "copy": got_c[:3], "original": got_m[:3], "expected": want[:3]})
-        return
-    c.reset()
-    first = MersenneTwister(case["seed"])
-    if [c.next_float() for _ in range(3)] != [first.next_float() for _ in range(3)] or m.next_float() != ref.next_float():
-        ctx.viol("streams-share-state:deep-copy", {"seed": case["seed"], "note": "reset of the copy"})
+    for how in ("deepcopy", "pickle", "copy"):
+        m, ref = MersenneTwister(case["seed"]), MersenneTwister(case["seed"])
+        cur = case["seed"]
+        if case["bseed"] % 2:
+            # the current seed is no longer the original one (what a stream updater does between replications)
+            cur = case["bseed"]
+            m.set_seed(cur); ref.set_seed(cur)
+        for _ in range(1 + case["bseed"] % 4):
+            m.next_float(); ref.next_float()
+        c = copy.deepcopy(m) if how == "deepcopy" else pickle.loads(pickle.dumps(m)) if how == "pickle" else copy.copy(m)
+        ctx.count("stream_copies")
+        if c.seed() != cur or c.original_seed() != case["seed"]:
+            ctx.viol(f"seed-getters-of-a-copy:{how}", {"seed": case["seed"], "current": cur, "copy_reports": [c.seed(), c.original_seed()]})
+            return
+        if how != "copy":
+            want = [ref.next_float() for _ in range(6)]
+            got_c = [c.next_float() for _ in range(6)]
+            got_m = [m.next_float() for _ in range(6)]
+            if got_c != want or got_m != want:
+                ctx.viol(f"streams-share-state:{how}", {"seed": case["seed"], "copy": got_c[:3], "original": got_m[:3], "expected": want[:3]})
+                return
+        c.reset()
+        first = MersenneTwister(cur)
+        if [c.next_float() for _ in range(3)] != [first.next_float() for _ in range(3)] or (how != "copy" and m.next_float() != ref.next_float()):
+            ctx.viol(f"streams-share-state:{how}" if how != "copy" else "reset-does-not-replay-seed:copy", {"seed": case["seed"], "current": cur, "note": "reset of the copy"})
+            return
 
 
 def _seedless(case, ctx):
@@ -216,6 +229,17 @@ def _seedless(case, ctx):
 
 
 def run_case(case, ctx):
+    if case["seed"] % 8 == 3:
+        # the user has switched the library's loggers to DEBUG: what a stream delivers does not depend on the log level
+        import logging
+        from vlib.base import library_loggers_at
+        ctx.count("cases_with_the_library_loggers_at_DEBUG")
+        with library_loggers_at(logging.DEBUG):
+            return _run_case(case, ctx)
+    return _run_case(case, ctx)
+
+
+def _run_case(case, ctx):
     from pydsol.core.streams import MersenneTwister
     seed, ops = case["seed"], case["ops"]
     if case["seed"] % 7 == 0:
